@@ -32,7 +32,7 @@ ASSUMPTIONS = [
 PROBES = ["ops", "plain_ops", "show_ops", "save_ops", "show_and_save_ops", "bulk_save_ops", "bulk_save_all_invalid", "bulk_save_empty",
           "outcome_unchanged", "outcome_fixed", "outcome_failed", "preview_hsl", "preview_alpha", "preview_tuple", "preview_named",
           "plain_after_preview", "report_files_written", "tty_runs", "no_color_runs", "decoy_runs", "subprocess_phase",
-          "slot_ops", "invalid_pair_with_show", "chdir_ops", "report_after_chdir", "force_color_env_runs", "big_bulk_ops"]
+          "slot_ops", "invalid_pair_with_show", "chdir_ops", "report_after_chdir", "force_color_env_runs", "big_bulk_ops", "tmpdir_on_other_filesystem_runs", "report_blocked_ops", "save_with_report_blocked"]
 
 QUICK = "cm_colors_quick_report.html"
 BULK = "cm_colors_bulk_report.html"
@@ -64,7 +64,8 @@ def generate(rseed, tier, idx):
     e = stream(rseed, "env")
     env = {"tty": e.random() < 0.4, "no_color": e.random() < 0.3,
            "decoys": e.random() < 0.5, "old_reports": e.random() < 0.3,
-           "force_color": e.choice((None, None, None, None, "FORCE_COLOR", "TTY_COMPATIBLE", "CLICOLOR_FORCE"))}
+           "force_color": e.choice((None, None, None, None, "FORCE_COLOR", "TTY_COMPATIBLE", "CLICOLOR_FORCE")),
+           "tmp_other_fs": e.random() < 0.2}
     n = g.randint(3, 20 if tier == "thorough" else 12)
     ops = []
     nslots = 0
@@ -74,6 +75,9 @@ def generate(rseed, tier, idx):
         vr = g.random() < 0.35
         if g.random() < 0.08:
             ops.append({"op": "chdir", "to": g.choice(("cwd", "cwd/sub", "cwd2", "cwd2/deep"))})
+        if g.random() < 0.04:
+            # from here on the report cannot be written in this directory: its name is taken by a directory
+            ops.append({"op": "block_reports"})
         if m < 0.08:
             t, b, large, tk = _pair(g)
             ops.append({"op": "color", "v": g.choice((t, b))})
@@ -160,7 +164,7 @@ def execute(trace):
     oracles = []
     for op in trace["ops"]:
         sop = _strip(op)
-        if sop["op"] == "chdir":
+        if sop["op"] in ("chdir", "block_reports"):
             oracles.append({})
             continue
         if sop["op"] == "newpair":
@@ -198,9 +202,23 @@ def execute(trace):
         nontrivial = False
 
         cur = ["cwd"]
+        blocked = set()
+        other_tmp = None
+        if env.get("tmp_other_fs"):
+            cand = os.path.join("/tmp" if root.startswith("/dev/shm") else "/dev/shm", "cmverif-tmp-%d-%s" % (os.getpid(), os.path.basename(root)))
+            try:
+                os.makedirs(cand, exist_ok=True)
+                if os.stat(cand).st_dev != os.stat(root).st_dev:
+                    other_tmp = cand
+                    bump("tmpdir_on_other_filesystem_runs")
+                else:
+                    os.rmdir(cand)
+            except OSError:
+                other_tmp = None
 
         def run(op):
-            with apiops.Effects(root, tty=env["tty"], no_color=env["no_color"], cwd_rel=cur[0], extra_env=env.get("force_color")) as fx:
+            with apiops.Effects(root, tty=env["tty"], no_color=env["no_color"], cwd_rel=cur[0], extra_env=env.get("force_color"),
+                                tmpdir_abs=other_tmp) as fx:
                 r = apiops.run_op(op, ctx)
             return r, fx.summary()
 
@@ -214,6 +232,16 @@ def execute(trace):
 
         for i, op in enumerate(trace["ops"]):
             sop = _strip(op)
+            if sop["op"] == "block_reports":
+                for nme in (QUICK, BULK):
+                    pth = os.path.join(root, cur[0], nme)
+                    if os.path.isfile(pth):
+                        os.unlink(pth)
+                    os.makedirs(pth, exist_ok=True)
+                blocked.add(cur[0])
+                bump("report_blocked_ops")
+                events.append((i, "block_reports", cur[0]))
+                continue
             if sop["op"] == "chdir":
                 # the caller changes its working directory between calls (os.chdir in the caller's process)
                 cur[0] = sop["to"]
@@ -231,7 +259,7 @@ def execute(trace):
             if not preview:
                 bump("plain_ops")
                 r, fxs = run(sop)
-                events.append((i, r.get("ret"), r.get("exc"), fxs))
+                events.append((i, r.get("ret"), r.get("exc"), {k: v for k, v in fxs.items() if k != "tmpdir"}))
                 check_plain(i, op, r, fxs)
                 if seen_preview_change:
                     bump("plain_after_preview")
@@ -248,11 +276,12 @@ def execute(trace):
             if op.get("plain_first"):
                 rp, fxp = run(plain_op)
                 check_plain(i, plain_op, rp, fxp)
+            before_paths = set(seams.snapshot(root))
             r, fxs = run(sop)
             if not op.get("plain_first"):
                 rp, fxp = run(plain_op)
                 check_plain(i, plain_op, rp, fxp)
-            events.append((i, r.get("ret"), r.get("exc"), fxs, rp.get("ret")))
+            events.append((i, r.get("ret"), r.get("exc"), {k: v for k, v in fxs.items() if k != "tmpdir"}, rp.get("ret")))
             if sop.get("show") and sop.get("save"):
                 bump("show_and_save_ops")
             elif sop.get("show"):
@@ -268,6 +297,14 @@ def execute(trace):
             tk = op.get("tk")
             if tk in ("hsl", "alpha", "tuple", "list", "name", "nameU"):
                 bump("preview_" + {"list": "tuple", "nameU": "named", "name": "named"}.get(tk, tk))
+            if sop.get("save") and cur[0] in blocked:
+                # injected fault: the report cannot be written here. The property does not say what happens then, so only
+                # the effects clause is asserted: nothing else may be left behind (and the call may raise)
+                bump("save_with_report_blocked")
+                left = sorted(set(fxs["created"]) | set(fxs["changed"]) | set(fxs["removed"]))
+                if left:
+                    V("unexpected-file", i, op, paths=left, note="report could not be written (its name is a directory); something else was left behind")
+                continue
             if "exc" in r:
                 V("preview-raised", i, op, exc=r["exc"])
                 continue
@@ -304,16 +341,19 @@ def execute(trace):
                     allowed.add(cur[0] + "/" + BULK)
                     if orc.get("n_valid", 0) > 0:
                         must = cur[0] + "/" + BULK
+            # judged on the END state (a temporary file that is renamed into the report, or removed again, leaves nothing
+            # else behind), plus: nothing outside the sandbox / the temp directory may be opened for writing, and no
+            # pre-existing file other than the report may be touched at any moment
             touched = set(fxs["created"]) | set(fxs["changed"]) | set(fxs["removed"])
             for w in fxs["writes"]:
-                if w[0] == "open":
-                    p = w[1]
-                    touched.add(p[6:] if p.startswith("<SBX>/") else p)
-                else:
-                    touched.add("%s%r" % (w[0], w[1]))
-            bad = sorted(t for t in touched if t not in allowed)
-            if bad or fxs["removed"]:
-                V("unexpected-file", i, op, paths=bad, removed=fxs["removed"])
+                pths = [w[1]] if w[0] == "open" else [a for a in w[1] if isinstance(a, str)]
+                for pth in pths:
+                    if pth.startswith("<SBX>/"):
+                        rel = pth[6:]
+                        if rel in before_paths and rel not in allowed:
+                            touched.add(rel)
+                    elif pth.startswith("/") and not (fxs.get("tmpdir") and pth.startswith(fxs["tmpdir"])):
+                        touched.add(pth)
             if must:
                 wrote = any(e[0] == "open" and e[1] == must and "w" in e[2] and e[3] == "ok" for e in fxs["io"]) or must in fxs["created"] or must in fxs["changed"]
                 if wrote:
@@ -352,6 +392,11 @@ def execute(trace):
                 base.rm_tree(sroot)
     finally:
         base.rm_tree(root)
+        try:
+            if other_tmp:
+                base.rm_tree(other_tmp)
+        except NameError:
+            pass
     return {"violations": vio, "digest": base.digest(events), "nontrivial": nontrivial, "stats": stats, "steps": stats.get("ops", 0)}
 
 
@@ -372,8 +417,8 @@ def shrink(trace):
         del t["ops"][i]
         if t["ops"]:
             yield t
-    if any(trace["env"].get(k) for k in ("tty", "no_color", "decoys", "old_reports", "force_color")):
-        for k in ("tty", "no_color", "decoys", "old_reports", "force_color"):
+    if any(trace["env"].get(k) for k in ("tty", "no_color", "decoys", "old_reports", "force_color", "tmp_other_fs")):
+        for k in ("tty", "no_color", "decoys", "old_reports", "force_color", "tmp_other_fs"):
             if trace["env"].get(k):
                 t = copy.deepcopy(trace)
                 t["env"][k] = None if k == "force_color" else False
